@@ -614,6 +614,8 @@ pub struct Obj {
     pub dangle: f64,
     pub grow: f64,
     pub proto: Vec<f32>,
+    /// per-frame appearance noise (std per component, unit-norm prototype)
+    pub fnoise: f64,
     pub visible_from: usize,
     pub gone_at: usize,
     pub gap_at: usize,
@@ -653,6 +655,9 @@ pub fn gen_world(rng: &mut Rng, o: &WorldOpts) -> Vec<Obj> {
     let nproto = (o.nobj / 2).max(1);
     let protos: Vec<Vec<f32>> = (0..o.nobj.max(1)).map(|_| unit(rng, o.feat_dim)).collect();
     let convoy_speed = rng.uniform(0.1, 0.9);
+    // appearance stability of this world: mostly stable embeddings, sometimes noisy ones (same-object similarities then
+    // spread over 0.3..0.95, so that low cosine / wide Euclidean thresholds matter)
+    let fnoise = *rng.pick(&[0.03f64, 0.03, 0.03, 0.12, 0.35]);
     for s in 0..o.scenes {
         let lone = o.vary_nobj && s > 0 && rng.chance(0.5);
         for k in 0..o.nobj {
@@ -729,6 +734,7 @@ pub fn gen_world(rng: &mut Rng, o: &WorldOpts) -> Vec<Obj> {
                 dangle: if o.rotated { rng.uniform(-0.03, 0.03) } else { 0.0 },
                 grow: rng.uniform(0.995, 1.005),
                 proto,
+                fnoise,
                 visible_from,
                 gone_at,
                 gap_at,
@@ -792,7 +798,7 @@ pub fn step_scene(rng: &mut Rng, objs: &mut [Obj], scene: u64, step: usize, o: &
             conf: ob.conf,
         };
         let feature = if o.features && !rng.chance(0.08) {
-            Some(ob.proto.iter().map(|p| p + (rng.normal() * 0.03) as f32).collect::<Vec<f32>>())
+            Some(ob.proto.iter().map(|p| p + (rng.normal() * ob.fnoise) as f32).collect::<Vec<f32>>())
         } else {
             None
         };
@@ -933,7 +939,7 @@ pub fn gen_cfg(rng: &mut Rng, kind: Kind) -> Cfg {
         wp: *rng.pick(&[0.05f32, 0.05, 0.05, 0.05, 0.05, 0.05, 0.3, 1.0]),
         wv: 1.0 / 160.0,
         vis: VisOpts {
-            metric: if rng.chance(0.5) { VisMetric::Euclid(*rng.pick(&[0.3f32, 0.6, 1.0])) } else { VisMetric::Cosine(*rng.pick(&[0.5f32, 0.8, 0.95])) },
+            metric: if rng.chance(0.5) { VisMetric::Euclid(*rng.pick(&[0.3f32, 0.6, 1.0, 1.6])) } else { VisMetric::Cosine(*rng.pick(&[-0.3f32, 0.1, 0.3, 0.5, 0.8, 0.95])) },
             min_votes: 1 + rng.usize(3),
             min_track_len: (1 + rng.usize(4)).min(max_obs),
             max_obs,
